@@ -25,7 +25,7 @@ import (
 func init() {
 	Register(&Spec{
 		ID: "C01", Level: "exploration",
-		Rule: "cases = chains driven by the coinswap director (add/remove/one-sided add/remove/4 swap kinds x single/double hop/donations/fee changes, amounts from magnitude classes up to 2^128 with tight/loose bounds) plus direct calls of GetInputPrice/GetOutputPrice; a case is non-trivial when the tx succeeded (or the pure call returned) and the share-value or leg relation was evaluated; distinct = distinct (op kind, hop, magnitude class of reserves, magnitude of amount, fee config, relation outcome strict/equal)",
+		Rule: "cases = chains driven by the coinswap director (add/remove/one-sided add/remove/4 swap kinds x single/double hop/donations/fee changes of which one in three is rolled back with its transaction, amounts from magnitude classes up to 2^128 with tight/loose bounds) plus direct calls of GetInputPrice/GetOutputPrice; a case is non-trivial when the tx succeeded (or the pure call returned) and the share-value or leg relation was evaluated; distinct = distinct (op kind, hop, magnitude class of reserves, magnitude of amount, fee config, relation outcome strict/equal)",
 		Assume: []string{"pool reserves are the bank balances of the pool escrow address in the two pool denoms", "fee in force is the params value read before the tx", "Int overflow panics (beyond 256 bit) are rejections"},
 		Cases:  func(t string) int { return tierN(t, 16, 64) },
 		Run:    func(run *ev.Run, c int) { runCoinswap(run, c, "C01") },
